@@ -19,6 +19,7 @@ func main() {
 	fs := flag.NewFlagSet(cmd, flag.ExitOnError)
 	tier := fs.String("tier", envOr("VERIF_TIER", "quick"), "quick or thorough")
 	only := fs.String("only", "", "restrict to contracts whose name contains this")
+	caseF := fs.String("case", "", "restrict to case runs whose tag contains this")
 	var pos []string
 	rest := os.Args[2:]
 	for len(rest) > 0 && !strings.HasPrefix(rest[0], "-") {
@@ -44,7 +45,7 @@ func main() {
 			fmt.Fprintln(os.Stderr, "govc check <property>")
 			os.Exit(2)
 		}
-		os.Exit(runCheck(eng, checkOpts{prop: pos[0], tier: *tier, only: *only}, t0))
+		os.Exit(runCheck(eng, checkOpts{prop: pos[0], tier: *tier, only: *only, caseFilter: *caseF}, t0))
 	case "dump":
 
 		var cts []*Contract
